@@ -10,9 +10,8 @@ package sys
 //
 //verif:bounds 2 clients x 2 requests (add then get/search); preemption bound 2; both states.
 
-import (
-	"sync"
-)
+
+import "sync"
 
 // VH_C11_pair: clients A and B on locations locA / locB.
 func VH_C11_pair(linear, opA, opB int) {
